@@ -37,6 +37,7 @@ from mashumaro.core.meta.helpers import (
     get_function_arg_annotation,
     get_literal_values,
     get_type_var_default,
+    is_builtin_type,
     is_final,
     is_generic,
     is_literal,
@@ -197,10 +198,18 @@ class UnionUnpackerBuilder(AbstractUnpackerBuilder):
             unpacker_block = CodeLines()
             if isinstance(unpacker, TypeMatchEligibleExpression):
                 do_try = False
-                if type_match_statements > 1:
-                    condition = f"__value_type is {type_arg.__name__}"
+                # type_arg may be a wrapper (Annotated, NewType, type alias)
+                matched_type = unpacker.matched_type
+                if is_builtin_type(matched_type):
+                    matched_type_name = matched_type.__name__
                 else:
-                    condition = f"type(value) is {type_arg.__name__}"
+                    matched_type_name = (
+                        spec.builder.get_type_name_identifier(matched_type)
+                    )
+                if type_match_statements > 1:
+                    condition = f"__value_type is {matched_type_name}"
+                else:
+                    condition = f"type(value) is {matched_type_name}"
                 if (condition, unpacker) in unpackers:  # pragma: no cover
                     # we shouldn't be here because condition is always unique
                     continue
@@ -899,20 +908,21 @@ def unpack_special_typing_primitive(spec: ValueSpec) -> Optional[Expression]:
 def unpack_number(spec: ValueSpec) -> Optional[Expression]:
     if spec.origin_type in (int, float):
         return TypeMatchEligibleExpression(
-            f"{type_name(spec.origin_type)}({spec.expression})"
+            f"{type_name(spec.origin_type)}({spec.expression})",
+            spec.origin_type,
         )
 
 
 @register
 def unpack_bool(spec: ValueSpec) -> Optional[Expression]:
     if spec.origin_type is bool:
-        return TypeMatchEligibleExpression(f"bool({spec.expression})")
+        return TypeMatchEligibleExpression(f"bool({spec.expression})", bool)
 
 
 @register
 def unpack_none(spec: ValueSpec) -> Optional[Expression]:
     if spec.origin_type in (NoneType, None):
-        return TypeMatchEligibleExpression("None")
+        return TypeMatchEligibleExpression("None", NoneType)
 
 
 @register
@@ -1265,7 +1275,9 @@ def unpack_collection(spec: ValueSpec) -> Optional[Expression]:
             spec.builder.ensure_object_imported(decodebytes)
             return f"bytearray(decodebytes({spec.expression}.encode()))"
     elif issubclass(spec.origin_type, str):
-        return TypeMatchEligibleExpression(f"str({spec.expression})")
+        return TypeMatchEligibleExpression(
+            f"str({spec.expression})", spec.origin_type
+        )
     elif ensure_generic_collection_subclass(spec, list):
         return f"[{inner_expr()} for value in {spec.expression}]"
     elif ensure_generic_collection_subclass(spec, collections.deque):
